@@ -161,16 +161,19 @@ def rule_h_matrix(chk, prog):
       ('k0', 'k0', k0, 'ΔT_r / (Δσ_r + Δσ_(r+1)), last row 0'),
       ('k1', 'k1', k1, 'P − cumsum(Δσ)_r'),
   ]
+  # diagnostic decomposition (only when the function keeps such intermediates, under whatever names): each documented piece
+  # that some local holds is reported on its own, which localises a mismatch of the whole
+  locals_ = [x for n_, x in env.items() if isinstance(x, Term) and n_ not in f.param_names() and x.k in ('bin', 'sub', 'call', 'store')]
   for label, var, reft, doc in pieces:
-    val = env.get(var)
-    if val is None:
-      continue
-    chk.check(alg.equal(A.conv(val), A.conv(reft)), rule, f'{site}: {label} = {doc}', sym.show(val, maxdepth=6)[:200], val.loc or loc, sym.show(reft, maxdepth=6)[:200], sym.show(val, maxdepth=6)[:200])
+    want_piece = A.conv(reft)
+    hit = [x for x in locals_ if alg.equal(A.conv(x), want_piece)]
+    if hit:
+      chk.ok(rule, f'{site}: {label} = {doc}', sym.show(hit[0], maxdepth=6)[:200], hit[0].loc or loc)
   chk.check(alg.equal(got, want), rule, f'{site}: H = (h0 − K − shift(K)) · Δσ_s with K = k0·(P − cumsum(Δσ)) (documented formula, column s carries its layer thickness)',
             sym.show(v, maxdepth=4)[:200], loc, 'documented H', str(sp.simplify(got - want))[:200])
   conds = [sym.show(common_path(p)) for p, e, l in ctx.raises]
   chk.check(any('ndim' in c and 'layers' in c for c in conds), rule, f'{site}: rejects a reference temperature that is not a vector of length `layers`', str(conds)[:200], loc)
-  chk.at_least(rule, 4)
+  chk.at_least(rule, 2)
 
 
 def common_path(p):
